@@ -36,11 +36,8 @@ def load_sym_flip():
 
 
 def load_real():
-    import importlib
-    import logging
-    logging.disable(logging.CRITICAL)
     m = Mods()
-    m.fi = importlib.import_module(FI)
+    m.fi = env.import_real(FI)
     return m
 
 
@@ -50,9 +47,26 @@ CLS = {'raw': 'RawFileInspector', 'qcow2': 'QcowInspector',
        'vdi': 'VDIInspector', 'iso': 'ISOInspector', 'gpt': 'GPTInspector',
        'luks': 'LUKSInspector'}
 
+ZERO_UNTIL_CAPTURED = ('qcow2', 'vhd', 'vhdx', 'vmdk', 'vdi', 'iso')
+
 # stream length bound per simple format: beyond the last decision point
 NMAX = {'raw': 4096, 'qcow2': 2048, 'qed': 2048, 'vhd': 2048, 'vdi': 2048,
         'iso': 40 * 1024, 'gpt': 2048, 'luks': 2048}
+
+
+def _pte(boot=0, chs=(0, 0, 0), typ=0, lba=0, size=0):
+    return bytes([boot, *chs, typ, 0, 0, 0]) + lba.to_bytes(4, 'little') + \
+        size.to_bytes(4, 'little')
+
+
+_E = _pte()
+_D = _pte(0x80, (1, 1, 0), 0x83, 2048, 4096)
+_P = _pte(0, (0, 2, 0), 0xEE, 1, 0xFFFFFFFF)
+GPT_PATTERNS = {
+    'empty': [_E, _E, _E, _E],
+    'data': [_D, _D, _D, _D],
+    'protective0': [_P, _E, _E, _E],
+}
 
 
 # ---------------------------------------------------------------- L1
@@ -204,6 +218,14 @@ def scen_simple(ctx, M):
     cls = getattr(fi, CLS[fmt])
     N = ctx.int('N', 0, ctx.p.get('nmax', NMAX[fmt]))
     fixed = {}
+    if fmt == 'gpt' and ctx.p.get('gpt_sym') is not None:
+        # bounded family of MBR tables: the listed entries are fully
+        # symbolic, the others follow a concrete pattern
+        pat = GPT_PATTERNS[ctx.p.get('gpt_fixed', 'empty')]
+        for i in range(4):
+            if i not in ctx.p['gpt_sym']:
+                for j, b in enumerate(pat[i]):
+                    fixed[446 + 16 * i + j] = b
     if fmt == 'iso' and ctx.p.get('iso_bs') is not None:
         bs = ctx.p['iso_bs']
         fixed = {32896: bs & 255, 32897: bs >> 8}
@@ -234,8 +256,13 @@ def scen_simple(ctx, M):
     m, c, vs, sc = oa
     ctx.check('C01-ref-complete', h.veq(c, ref.complete(S)))
     ctx.check('C03-match-iff-signature', h.veq(m, ref.signature(S)))
-    ctx.check('C07-size', h.veq(vs, ref.size(S)) if not isinstance(
-        vs, str) else False)
+    # C07: declared size for a complete, matching image; 0 while the
+    # structure carrying the size has not been captured
+    if c and m:
+        ctx.check('C07-size', h.veq(vs, ref.size(S)) if not isinstance(
+            vs, str) else False)
+    elif not c and fmt in ZERO_UNTIL_CAPTURED:
+        ctx.check('C07-zero-while-unknown', h.veq(vs, 0))
     # C02: fail closed
     fails = ref.failing(S) if (c and m) else {}
     if sc == 'ok':
@@ -258,3 +285,208 @@ def scen_simple(ctx, M):
     if c and m:
         ctx.goal('complete-match')
     return (ea, eb, m, c, vs, sc)
+
+
+# ---------------------------------------------------------------- VHDX
+import uuid as _uuid
+
+G_META = _uuid.UUID('8B7CA206-4790-4B9A-B8FE-575F050F886E').bytes_le
+G_VDS = _uuid.UUID('2FA54224-CD1B-4876-B211-5DBED83BF4B8').bytes_le
+G_BAT = _uuid.UUID('2DC27766-F623-4200-9D64-115E9BFD4A08').bytes_le
+G_FILEPARAM = _uuid.UUID('CAA16737-FA36-4D43-B3B6-33F0AA44E76B').bytes_le
+HDR = 192 * 1024
+KiB = 1024
+
+
+def le_sum(ctx, names):
+    """value of a little-endian field made of named symbolic bytes"""
+    import z3
+    if ctx.sym:
+        return core.wrapint(h.int_from_bytes([z3.Int(n) for n in names],
+                                             True))
+    return None
+
+
+def scen_vhdx(ctx, M):
+    """VHDX: region table -> metadata table -> virtual-disk-size item with
+    a symbolic metadata offset, item offset, item length, size, stream
+    length and chunking.  Run A (k cuts + queries) against run B (one
+    chunk), retention, memory bound, declared size."""
+    fi = M.fi
+    p = ctx.p
+    rt = p.get('rt', ['meta'])          # region-table entries
+    mt = p.get('mt', ['vds'])           # metadata-table entries
+    fixed = {}
+    # region table header: 'regi' left free (4 bytes), count fixed
+    cnt = len(rt)
+    for i, b in enumerate(cnt.to_bytes(4, 'little')):
+        fixed[HDR + 8 + i] = b
+    if p.get('sigs', 'sym') == 'sym':
+        sym_cells = [HDR + j for j in range(4)] + list(range(8))
+    else:
+        sym_cells = []
+        for j, b in enumerate(b'vhdxfile'):
+            fixed[j] = b
+        for j, b in enumerate(b'regi'):
+            fixed[HDR + j] = b
+    for i, kind in enumerate(rt):
+        e = HDR + 16 + 32 * i
+        g = G_META if kind == 'meta' else G_BAT
+        for j, b in enumerate(g):
+            fixed[e + j] = b
+        if kind == 'meta':
+            sym_cells += [e + 16 + j for j in range(8)]
+    mi = rt.index('meta') if 'meta' in rt else None
+    N = ctx.int('N', 0, p.get('nmax', 16 * KiB * KiB))
+    segs = []
+    Moff = None
+    if mi is not None:
+        e = HDR + 16 + 32 * mi
+        mcount = len(mt)
+        table = [('sym', 'msig0') if p.get('sigs', 'sym') == 'sym'
+                 else ord('m')] + list(b'etadata') + [0, 0] + \
+            list(mcount.to_bytes(2, 'little')) + [0] * 20
+        vi = mt.index('vds') if 'vds' in mt else None
+        for i, kind in enumerate(mt):
+            g = G_VDS if kind == 'vds' else G_FILEPARAM
+            table += list(g)
+            if kind == 'vds':
+                table += [('sym', 'io%d' % j) for j in range(4)]
+                table += [('sym', 'il%d' % j) for j in range(4)]
+                table += [0] * 8
+            else:
+                table += list((65536 + 4096 * i).to_bytes(4, 'little')) + \
+                    list((8).to_bytes(4, 'little')) + [0] * 8
+    fam = p.get('family', 'forward')
+
+    def family(Mv):
+        if fam == 'forward':
+            ctx.assume(Mv >= 256 * KiB)
+            ctx.assume(Mv <= p.get('mmax', 8 * KiB * KiB))
+        elif fam == 'backward':
+            ctx.assume(Mv < 256 * KiB)
+    # symbolically the family assumption on M must be in force before the
+    # stream is read (the table segment is placed at M)
+    if ctx.sym and mi is not None:
+        import z3
+        Mv = core.wrapint(h.int_from_bytes(
+            [z3.Int('S_%d' % (HDR + 16 + 32 * mi + 16 + j))
+             for j in range(8)], True))
+        IO = core.wrapint(h.int_from_bytes(
+            [z3.Int('io%d' % j) for j in range(4)], True))
+        for j in range(8):
+            ctx.byte_var('S_%d' % (HDR + 16 + 32 * mi + 16 + j))
+        for j in range(4):
+            ctx.byte_var('io%d' % j)
+        family(Mv)
+        lb = 256 * KiB if fam == 'forward' else None
+        # later segments win where they overlap: the table wins over the
+        # size item
+        if vi is not None:
+            segs.append((Mv + IO, [('sym', 'sz%d' % j) for j in range(8)],
+                         lb))
+        segs.append((Mv, table, lb))
+    S = ctx.stream('S', N, sym_cells=sym_cells, fixed=fixed,
+                   default=p.get('default', 0), segs=segs)
+    if not ctx.sym and mi is not None:
+        Mv = S.le(HDR + 16 + 32 * mi + 16, 8)
+        family(Mv)
+    cs = cuts(ctx, p['cuts'], N)
+    cls = fi.VHDXInspector
+    eb, B = feed(ctx, fi, cls, [S.whole()], False)
+    ob = observe(ctx, fi, B) if eb is None else None
+    ea, A = feed(ctx, fi, cls, chunks_of(S, cs), True)
+    ctx.check('C01-rel-exception', ea == eb)
+    ctx.check('C03-total-only-IFE', ea in (None, 'ImageFormatError') and
+              eb in (None, 'ImageFormatError'))
+    total = 0
+    for v in A.context_info.values():
+        total = total + v
+    ctx.check('C05-bound', total <= 512 * KiB)
+    for name, region in A._capture_regions.items():
+        ctx.check('C05-region-length-%s' % name, region.length <= 64 * KiB)
+    if ea is not None or eb is not None:
+        ctx.goal('rejected-by-eat_chunk')
+        return (ea, eb)
+    oa = observe(ctx, fi, A)
+    ctx.check('C01-rel-match', oa[0] == ob[0])
+    ctx.check('C01-rel-complete', oa[1] == ob[1])
+    ctx.check('C01-rel-size', h.veq(oa[2], ob[2]))
+    ctx.check('C01-rel-safety', oa[3] == ob[3])
+    retained_ok(ctx, A, S, 'C01-retain')
+    m, c, vs, sc = oa
+    ctx.check('C03-match-iff-signature', h.veq(m, S.has(0, b'vhdxfile')))
+    # C07 on the well-formed skeleton
+    if mi is not None and vi is not None and fam == 'forward':
+        e = Mv + 32 + 32 * vi
+        io = S.le(e + 16, 4)
+        il = S.le(e + 20, 4)
+        size = S.le(Mv + io, 8)
+        entries = 32 + 32 * len(mt)
+        wf = AND(N >= 256 * KiB, S.has(HDR, b'regi'),
+                 S.has(Mv, b'metadata'), io >= entries, il == 8,
+                 N >= Mv + io + 8, N >= Mv + entries)
+        if ctx.truth(wf):
+            ctx.goal('well-formed')
+            ctx.check('C07-size', h.veq(vs, size))
+            ctx.check('C07-complete', c)
+            if m:
+                ctx.check('C02-clean-accepted', sc == 'ok')
+        elif ctx.truth(AND(N >= 256 * KiB, S.has(HDR, b'regi'),
+                           S.has(Mv, b'metadata'), io >= entries, il == 8,
+                           N < Mv + io + 8)):
+            ctx.goal('truncated-before-size')
+            ctx.check('C07-zero-while-unknown', h.veq(vs, 0))
+    elif fam == 'forward':
+        ctx.check('C07-no-size-item', h.veq(vs, 0))
+    if sc == 'ok':
+        ctx.check('C02-ok-needs-complete-match', c and m)
+    return (ea, eb, m, c, vs, sc)
+
+
+# ---------------------------------------------------------------- job sets
+def harnesses():
+    H = {
+        'capture-step': R.Harness('capture-step', scen_capture, load_sym,
+                                  load_real),
+        'endcapture-step': R.Harness('endcapture-step', scen_endcapture,
+                                     load_sym, load_real),
+        'simple': R.Harness('simple', scen_simple, load_sym, load_real),
+        'simple-flip': R.Harness('simple-flip', scen_simple, load_sym_flip,
+                                 load_real),
+        'vhdx': R.Harness('vhdx', scen_vhdx, load_sym, load_real),
+        'vhdx-flip': R.Harness('vhdx-flip', scen_vhdx, load_sym_flip,
+                               load_real),
+    }
+    H['capture-step'].required_goals = ('captured', 'already-complete',
+                                        'chunk-straddles-start')
+    H['endcapture-step'].required_goals = ('giant-chunk',)
+    H['simple'].required_goals = ('accepted', 'refused', 'complete-match')
+    H['vhdx'].required_goals = ('well-formed', 'truncated-before-size',
+                                'rejected-by-eat_chunk')
+    return H
+
+
+SIMPLE = ('raw', 'qcow2', 'qed', 'vhd', 'vdi', 'luks')
+
+
+def simple_jobs(J, H, props, k, tier, gpt='few', iso_bs=(2048,)):
+    jobs = []
+    P = {'props': sorted(props), 'cuts': k}
+    for fmt in SIMPLE:
+        jobs.append(J(H['simple'], dict(P, fmt=fmt)))
+    for bs in iso_bs:
+        jobs.append(J(H['simple'], dict(P, fmt='iso', iso_bs=bs)))
+    if gpt == 'few':
+        fam = [([0], 'empty'), ([3], 'data'), ([1], 'protective0')]
+    else:
+        fam = [([i], pat) for i in range(4)
+               for pat in ('empty', 'data', 'protective0')]
+        if tier == 'thorough':
+            fam += [([i, j], pat) for i in range(4) for j in range(i + 1, 4)
+                    for pat in ('empty', 'data')]
+    for sym, pat in fam:
+        jobs.append(J(H['simple'], dict(P, fmt='gpt', gpt_sym=sym,
+                                        gpt_fixed=pat),
+                      split_depth=10 if len(sym) > 1 else None))
+    return jobs
